@@ -341,13 +341,14 @@ pub fn worker_main(p: &dyn Property, a: WorkerArgs) -> i32 {
         }
         out_line(&format!("E {}", i));
         since_flush += 1;
-        if since_flush >= 2000 || fatal {
+        if since_flush >= 500 || fatal || out.violation.is_some() {
             out_line(&format!("A {}", agg.to_json()));
             agg = Agg::default();
             since_flush = 0;
         }
         if fatal {
             // a case thread is stuck, or shuttle's state is no longer trustworthy: start afresh
+            crate::c22::cleanup_scratch();
             unsafe { libc::_exit(3) };
         }
         i += a.nshards;
@@ -471,6 +472,7 @@ pub fn exec_case_main(p: &dyn Property, tier: Tier) -> i32 {
     };
     let out = p.exec(&case, &ctx);
     out_line(&format!("O {}", serde_json::to_string(&out).unwrap()));
+    crate::c22::cleanup_scratch();
     unsafe { libc::_exit(0) }
 }
 
